@@ -103,20 +103,42 @@ type pause struct {
 	OnArrival    bool   `json:"on_arrival"` // release when the other goroutine arrives (it blocks there), not when it completes
 }
 
-// derivePauses reduces a schedule to its pre-emptions (see DESIGN section 4).
+// derivePauses reduces a schedule to its pre-emptions (see DESIGN section 4).  Sites outside the repository (module
+// cache, std) cannot be instrumented: they are mapped to the innermost repository position of that goroutine
+// (SchedEvent.Repo), which is instrumented at statement level; arrivals are then counted per statement execution.
 func derivePauses(ev []sym.SchedEvent, repo string) ([]pause, []string) {
+	inRepo := func(s string) bool { return strings.HasPrefix(s, repo+"/") }
+	loc := func(e sym.SchedEvent) string {
+		if !inRepo(e.Site) && e.Repo != "" {
+			return e.Repo
+		}
+		return e.Site
+	}
+	// arrivals of location l by events [0,upto): consecutive events of one goroutine at the same mapped location
+	// count once when the location is a mapped (statement level) one
+	count := func(l string, upto int, mapped bool) int {
+		n := 0
+		last := map[int]string{}
+		for _, x := range ev[:upto] {
+			if x.Kind != "op" {
+				continue
+			}
+			xl := loc(x)
+			if xl == l && !(mapped && last[x.G] == l) {
+				n++
+			}
+			last[x.G] = xl
+		}
+		return n
+	}
 	var ps []pause
 	files := map[string]bool{}
 	for i, e := range ev {
 		if e.Kind != "preempt" {
 			continue
 		}
-		p := pause{Site: e.Site, Arrival: 1}
-		for _, x := range ev[:i] {
-			if x.Kind == "op" && x.Site == e.Site {
-				p.Arrival++
-			}
-		}
+		l := loc(e)
+		p := pause{Site: l, Arrival: count(l, i, l != e.Site) + 1}
 		// events of other goroutines until the paused one runs again
 		last := -1
 		for j := i + 1; j < len(ev); j++ {
@@ -130,14 +152,14 @@ func derivePauses(ev []sym.SchedEvent, repo string) ([]pause, []string) {
 		if last < 0 {
 			continue
 		}
-		p.ReleaseSite = ev[last].Site
-		for _, x := range ev[:last+1] {
-			if x.Kind == "op" && x.Site == p.ReleaseSite {
-				p.ReleaseCount++
-			}
-		}
+		rl := loc(ev[last])
+		p.ReleaseSite = rl
+		p.ReleaseCount = count(rl, last+1, rl != ev[last].Site)
 		if last+1 < len(ev) && ev[last+1].Kind == "blocked" && ev[last+1].G == ev[last].G {
 			p.OnArrival = true
+		}
+		if rl != ev[last].Site {
+			p.OnArrival = true // statement level: At fires before the statement, Done right after At
 		}
 		ps = append(ps, p)
 		for _, s := range []string{p.Site, p.ReleaseSite} {
@@ -163,6 +185,10 @@ func stmtSites(ev []sym.SchedEvent, file string) []string {
 		if strings.HasPrefix(e.Site, file+":") && (strings.HasPrefix(e.What, "read ") || strings.HasPrefix(e.What, "write ")) && !seen[e.Site] {
 			seen[e.Site] = true
 			out = append(out, e.Site)
+		}
+		if e.Repo != "" && strings.HasPrefix(e.Repo, file+":") && !seen[e.Repo] {
+			seen[e.Repo] = true
+			out = append(out, e.Repo)
 		}
 	}
 	return out
